@@ -286,21 +286,42 @@ Section Oracles.
 
   Inductive reject :=
   | RDelimiter | REmptyFile | RCsvError | REmptyName | RDupName | RNoTimeColumn | RTimeCollision
-  | RNoRows | RTimeParse.
+  | RNoRows | RTimeParse
+  | RUnderscore       (* 53efdcd: a non-time column whose name starts with '_' *)
+  | RLongRow.         (* fcf78a3: a data row with more fields than the header *)
 
   (* validateImportHeader: index of the time column *)
+  (* inferSchema: `if name[0] == '_' { continue }` - such a column would not be stored *)
+  Definition starts_underscore (name : bytes) : bool :=
+    match name with 95%N :: _ => true | _ => false end.
+
+  (* validateImportHeader, first loop: the names are examined in order and the FIRST offending
+     one decides the error: empty name, reserved '_' prefix (the time column is exempt), duplicate *)
+  Fixpoint header_scan (seen : list bytes) (h : list bytes) (tc : bytes) : option reject :=
+    match h with
+    | [] => None
+    | x :: r =>
+        if is_empty x then Some REmptyName
+        else if starts_underscore x && negb (bytes_eqb x tc) then Some RUnderscore
+        else if existsb (bytes_eqb x) seen then Some RDupName
+        else header_scan (x :: seen) r tc
+    end.
+
   Definition validate_header (h : list bytes) (tc : bytes) : reject + nat :=
-    if existsb is_empty h then inl REmptyName
-    else if has_dup h then inl RDupName
-    else match index_of tc h 0 with
-         | None => inl RNoTimeColumn
-         | Some i => if negb (bytes_eqb tc name_time) && existsb (bytes_eqb name_time) h
-                     then inl RTimeCollision else inr i
-         end.
+    match header_scan [] h tc with
+    | Some e => inl e
+    | None =>
+        match index_of tc h 0 with
+        | None => inl RNoTimeColumn
+        | Some i => if negb (bytes_eqb tc name_time) && existsb (bytes_eqb name_time) h
+                    then inl RTimeCollision else inr i
+        end
+    end.
 
   (* ---- importCSV ------------------------------------------------------------------------ *)
 
-  (* a ragged row is padded with "" - and cells beyond the header are DROPPED *)
+  (* a ragged row is padded with "" (cells beyond the header would be dropped: since fcf78a3 such a
+     row rejects the upload before [fit] is applied) *)
   Fixpoint fit (n : nat) (rec : list bytes) : list bytes :=
     match n with
     | O => []
@@ -339,7 +360,8 @@ Section Oracles.
                 match validate_header header (q_time_column q) with
                 | inl e => inl e
                 | inr ti =>
-                    if q_csv_err q then inl RCsvError
+                    if existsb (fun r => (length header <? length r)%nat) rows then inl RLongRow
+                    else if q_csv_err q then inl RCsvError
                     else match rows with
                          | [] => inl RNoRows
                          | _ =>
@@ -368,10 +390,7 @@ Section Oracles.
     | StrCol v => map VStr v
     end.
 
-  (* inferSchema: `if name[0] == '_' { continue }` *)
-  Definition starts_underscore (name : bytes) : bool :=
-    match name with 95%N :: _ => true | _ => false end.
-
+  (* inferSchema skips '_'-prefixed columns (unreachable for an accepted import since 53efdcd) *)
   Definition stored_cells (nc : bytes * column) : list cellv :=
     if starts_underscore (fst nc) then map (fun _ => VAbsent) (col_cells (snd nc)) else col_cells (snd nc).
 
@@ -451,7 +470,8 @@ Fixpoint lookup_i2f (t : list (Z * Z)) (n : Z) : Z :=
   end.
 
 (* observation: 0 = stored, otherwise the reject class (1 delimiter, 2 empty file, 3 csv error,
-   4 empty name, 5 duplicate, 6 no time column, 7 "time" collision, 8 no rows, 9 time parse);
+   4 empty name, 5 duplicate, 6 no time column, 7 "time" collision, 8 no rows, 9 time parse,
+   14 reserved '_' column name; an over-long data row is reported as a csv parse error, 3);
    rows read back from the stored Parquet files; number of files found after a rejection *)
 Record ccase := { c_req : request; c_table : list (bytes * annot); c_i2f : list (Z * Z); c_params : tparams;
                   c_code : N; c_rows : list (Z * list cellv); c_files : N }.
@@ -460,6 +480,7 @@ Definition reject_code (r : reject) : N :=
   match r with
   | RDelimiter => 1 | REmptyFile => 2 | RCsvError => 3 | REmptyName => 4 | RDupName => 5
   | RNoTimeColumn => 6 | RTimeCollision => 7 | RNoRows => 8 | RTimeParse => 9
+  | RUnderscore => 14 | RLongRow => 3
   end%N.
 
 Definition case_model (c : ccase) : reject + batch :=
@@ -621,17 +642,6 @@ Definition pq_len (c : pqcol) : nat :=
   | POther => O
   end.
 
-(* arrowColumnToTyped + validity: what is handed to the buffer for a non-time column *)
-Definition pq_cells (p : tparams) (c : pqcol) : option (list cellv) :=
-  match c with
-  | PInt t v => Some (map (fun o => match o with Some z => VInt (arrow_int_to_int64 t z) | None => VNull end) v)
-  | PFloat v => Some (map (fun o => match o with Some z => VFloat z | None => VNull end) v)
-  | PBool v => Some (map (fun o => match o with Some x => VBool x | None => VNull end) v)
-  | PStr v => Some (map (fun o => match o with Some s => VStr s | None => VNull end) v)
-  | PTs u v => Some (map (fun o => match o with Some z => VInt (arrow_ts_to_micros p z u) | None => VNull end) v)
-  | POther => None
-  end.
-
 Fixpoint all_some {A} (l : list (option A)) : option (list A) :=
   match l with
   | [] => Some []
@@ -646,6 +656,26 @@ Fixpoint map_opt {A B} (f : A -> option B) (l : list A) : option (list B) :=
               | None => None
               | Some y => match map_opt f r with Some r' => Some (y :: r') | None => None end
               end
+  end.
+
+(* arrowColumnToTyped + validity: what is handed to the buffer for a non-time column *)
+Definition pq_cells (p : tparams) (c : pqcol) : option (list cellv) :=
+  match c with
+  | PInt t v =>
+      (* 2599b0c: a (non-null) uint64 above MaxInt64 is a conversion error instead of wrapping *)
+      if match t with U64 => existsb (fun o => match o with Some z => two63 <=? z | None => false end) v | _ => false end
+      then None
+      else Some (map (fun o => match o with Some z => VInt (arrow_int_to_int64 t z) | None => VNull end) v)
+  | PFloat v => Some (map (fun o => match o with Some z => VFloat z | None => VNull end) v)
+  | PBool v => Some (map (fun o => match o with Some x => VBool x | None => VNull end) v)
+  | PStr v => Some (map (fun o => match o with Some s => VStr s | None => VNull end) v)
+  | PTs u v =>
+      (* 2599b0c: non-null values go through arrowTimestampToMicrosChecked *)
+      map_opt (fun o => match o with
+                        | Some z => match arrow_ts_checked p z u with Some t => Some (VInt t) | None => None end
+                        | None => Some VNull
+                        end) v
+  | POther => None
   end.
 
 (* parquetColumnToTimeMicros (after b90d6d7: timestamp and integer time values go through the
